@@ -340,6 +340,12 @@ CORPUS = [
             '<xsl:template match="/"><o a="{id(\'n1\')}" b="{id(\'n2\')}" c="{count(id(\'n1 n2\'))}"><xsl:for-each select="id(//@refs)"><i><xsl:value-of select="."/></i></xsl:for-each></o>'
             '</xsl:template></xsl:stylesheet>\n',
      "mode": "xml", "cls": "corpus-idref", "probes": ["id-fn"], "nodom": False},
+    # namespace axis: the implicit xml namespace node and in-scope declarations, on every tree implementation
+    {"xml": '<?xml version="1.0"?>\n<?xml-stylesheet type="text/xsl" href="file://@DIR@/style.xsl"?>\n<a xmlns:p="urn:p"><b xmlns="urn:d"><p:c/></b><d/></a>',
+     "xsl": '<?xml version="1.0"?>\n<xsl:stylesheet version="1.0" xmlns:xsl="http://www.w3.org/1999/XSL/Transform">'
+            '<xsl:template match="/"><o x="{count(/*/namespace::xml)}" all="{count(//namespace::*)}"><xsl:for-each select="//*"><n t="{name()}" c="{count(namespace::*)}">'
+            '<xsl:for-each select="namespace::*"><xsl:sort select="name()"/><ns p="{name()}" u="{.}"/></xsl:for-each></n></xsl:for-each></o></xsl:template></xsl:stylesheet>\n',
+     "mode": "xml", "cls": "corpus-ns-axis", "probes": ["ns-axis"], "nodom": False},
     # UTF-16 output (wide writes through XalanOutputStream): ordinary text, then one raw run longer than the 512-unit
     # buffer of the ostream/callback streams but shorter than the 8192-unit buffer of the file streams
     {"xml": '<?xml version="1.0"?>\n<?xml-stylesheet type="text/xsl" href="file://@DIR@/style.xsl"?>\n<a>0123456789abcdefghijklmnopqrstuvwxyzABCDEFGHIJKLMNOPQRSTUVWXYZ-+</a>',
